@@ -70,7 +70,9 @@ def run_case(case):
     viols, errs = [], {}
     evals = 0
     rs = cm.rshells(shells)
-    kw = {} if T is None else {"transform": T.copy()}
+    rkind = cm.REPS[sum(len(s_["e"]) for s_ in shells) % len(cm.REPS)]  # in-memory representation of the array arguments
+    gpts = cm.rep(pts, rkind)
+    kw = {} if T is None else {"transform": cm.rep(T, rkind)}
 
     def reference(o):
         v, sc = gto.eval_deriv_basis(rs, pts, o, with_scale=True)
@@ -80,17 +82,17 @@ def run_case(case):
 
     # order zero through evaluate_basis
     v0, s0 = reference((0, 0, 0))
-    out = cm.call(evaluate_basis, cm.build(shells), pts.copy(), **kw)
+    out = cm.call(evaluate_basis, cm.build(shells), gpts, **kw)
     cm.compare(out, v0, TOL, "evaluate_basis", "value", viols, errs, scale=s0 + FLOOR_ABS / TOL, ls=cm.ls_of(shells))
     evals += 1
     for o in case["orders"]:
         o = tuple(int(x) for x in o)
         v, sc = reference(o)
         scale = sc + FLOOR_ABS / TOL
-        g = cm.call(evaluate_deriv_basis, cm.build(shells), pts.copy(), np.array(o, dtype=int), **kw)
+        g = cm.call(evaluate_deriv_basis, cm.build(shells), gpts, np.array(o, dtype=int), **kw)
         cm.compare(g, v, TOL, "evaluate_deriv_basis(orders=%s, general)" % (o,), "deriv_general", viols, errs, scale=scale, orders=list(o), ls=cm.ls_of(shells))
         evals += 1
-        d = cm.call(evaluate_deriv_basis, cm.build(shells), pts.copy(), np.array(o, dtype=int), deriv_type="direct", **kw)
+        d = cm.call(evaluate_deriv_basis, cm.build(shells), gpts, np.array(o, dtype=int), deriv_type="direct", **kw)
         evals += 1
         if max(o) <= 2:
             cm.compare(d, v, TOL, "evaluate_deriv_basis(orders=%s, direct)" % (o,), "deriv_direct", viols, errs, scale=scale, orders=list(o), ls=cm.ls_of(shells))
@@ -124,7 +126,7 @@ def run_case(case):
             viols.append(cm.viol("unknown back-end name answered with numbers off by %.3e" % min(e, 1e300), "unknown_backend", min(e, 1e300), TOL))
     hostile = any(c in ("pt:center", "pt:axis", "pt:plane", "pt:off-1e-8") for c in case.get("classes", []))
     nontrivial = hostile and any(sum(o) >= 1 for o in case["orders"]) and any(s["l"] >= 1 for s in shells)
-    return {"evals": evals, "nontrivial": bool(nontrivial), "classes": case.get("classes", []), "errs": errs, "violations": viols}
+    return {"evals": evals, "nontrivial": bool(nontrivial), "classes": case.get("classes", []) + ["rep:" + rkind], "errs": errs, "violations": viols}
 
 
 def classify(case, v):
